@@ -17,7 +17,7 @@ PROP = dict(
                            "mpt_object_set_string": 10000, "set_string:accepted": 3000, "monitor:string-readbacks-compared": 1000,
                            "mpt_axis_set": 5000, "mpt_line_set": 5000, "mpt_text_set": 5000, "mpt_graph_set": 5000, "mpt_world_set": 5000,
                            "color:wellformed-compared": 1000, "color:refused": 500}),
-              dict(name="c20_cxx", src=["c20_cxx.cpp"], libs=["mpt++", "mptio", "mptplot", "mptcore"], batch=256, lsan=True,
+              dict(name="c20_cxx", memcheck=500, src=["c20_cxx.cpp"], libs=["mpt++", "mptio", "mptplot", "mptcore"], batch=256, lsan=True,
                    cflags=["-fno-sanitize=vptr"],
                    floors={"object::set": 50000, "set:accepted": 10000, "set:refused": 5000, "monitor:readbacks-compared": 5000,
                            "monitor:copies-compared": 5000, "copy:accepted": 5000, "color:print-parse": 15000, "monitor:properties-compared": 200000}),
